@@ -222,7 +222,9 @@ func sync_runtime_notifyListAdd(l *notifyList) uint32 {
 func sync_runtime_notifyListWait(l *notifyList, t uint32) {
 	st := getNotifyState(l)
 	st.mu.Lock()
-	for latomic.LoadUint32(&l.notify) == t {
+	// Wait until ticket t has been notified, i.e. notify has moved past t
+	// (tickets wrap around, so compare the signed difference).
+	for int32(latomic.LoadUint32(&l.notify)-t) <= 0 {
 		st.cond.Wait(&st.mu)
 	}
 	st.mu.Unlock()
@@ -243,7 +245,10 @@ func sync_runtime_notifyListNotifyOne(l *notifyList) {
 	st.mu.Lock()
 	if latomic.LoadUint32(&l.notify) != latomic.LoadUint32(&l.wait) {
 		latomic.AddUint32(&l.notify, 1)
-		st.cond.Signal()
+		// All waiters share one condition variable: wake them all so that the
+		// one holding the notified ticket is certain to run; the others re-check
+		// their ticket and go back to sleep.
+		st.cond.Broadcast()
 	}
 	st.mu.Unlock()
 }
